@@ -128,7 +128,7 @@ func c17Swamp(fs *Facts) {
 	f, err := Load(c17SwampPath)
 	if err != nil {
 		fs.Err("%v", err)
-		for _, n := range []string{"destroyDrainsThenCancels", "closeCancels", "gracefulWaitsOnContext"} {
+		for _, n := range []string{"destroyDrainsThenCancels", "closeCancels", "gracefulWaitsOnContext", "ceasePrecedesDestroy"} {
 			fs.Tri(n, Unknown, c17SwampPath)
 		}
 		return
@@ -144,10 +144,56 @@ func c17Swamp(fs *Facts) {
 		fs.Tri("destroyDrainsThenCancels", Unknown, c17SwampPath)
 	}
 	if c != nil {
-		fs.Tri("closeCancels", TriOf(c17Index(f, c.Body.List, "s.goRoutineCancelFunction()") >= 0), c14Where(f, c))
+		// after `closing = 1` every path must reach the (top-level) cancel: no return in between
+		cancelIdx := c17Index(f, c.Body.List, "s.goRoutineCancelFunction()")
+		closingIdx := c17Index(f, c.Body.List, "atomic.StoreInt32(&s.closing, 1)")
+		ok := cancelIdx >= 0 && closingIdx >= 0 && closingIdx < cancelIdx
+		if ok {
+			for _, st := range c.Body.List[closingIdx+1 : cancelIdx] {
+				ast.Inspect(st, func(n ast.Node) bool {
+					if _, isFn := n.(*ast.FuncLit); isFn {
+						return false
+					}
+					if _, isRet := n.(*ast.ReturnStmt); isRet {
+						ok = false
+					}
+					return true
+				})
+			}
+		}
+		fs.Tri("closeCancels", TriOf(ok), c14Where(f, c))
 	} else {
 		fs.Tri("closeCancels", Unknown, c17SwampPath)
 	}
+	// auto-destroy sites: every `s.Destroy()` statement outside Destroy itself is immediately preceded by `s.CeaseVigil()`
+	sites, okSites := 0, 0
+	for _, dcl := range f.AST.Decls {
+		fd, ok := dcl.(*ast.FuncDecl)
+		if !ok || fd.Body == nil || fd.Name.Name == "Destroy" {
+			continue
+		}
+		ast.Inspect(fd, func(n ast.Node) bool {
+			blk, ok := n.(*ast.BlockStmt)
+			if !ok {
+				return true
+			}
+			list := c17Plain(f, blk.List)
+			for i, st := range list {
+				if f.Str(st) == "s.Destroy()" {
+					sites++
+					if i > 0 && f.Str(list[i-1]) == "s.CeaseVigil()" {
+						okSites++
+					}
+				}
+			}
+			return true
+		})
+	}
+	cp := Unknown
+	if sites > 0 {
+		cp = TriOf(sites == okSites)
+	}
+	fs.Tri("ceasePrecedesDestroy", cp, c17SwampPath+" ("+strconv.Itoa(sites)+" sites)")
 	gw := Unknown
 	if g != nil {
 		gw = No
@@ -206,6 +252,9 @@ func c17Method(f *File, call *ast.CallExpr) (recv, method string) {
 	}
 	return f.Str(sel.X), sel.Sel.Name
 }
+
+var c17AutoDestroys = map[string]bool{"DeleteTreasure": true, "CloneAndDeleteExpiredTreasures": true,
+	"CloneAndDeleteMatchingTreasures": true, "CloneAndDeleteTreasuresByKeys": true}
 
 func c17IsCounter(m string) bool {
 	return m == "LockSystem" || m == "UnlockSystem" || m == "BeginVigil" || m == "CeaseVigil"
@@ -327,6 +376,11 @@ func c17Body(f *File, body *ast.BlockStmt, name string, lits *[]c17Shape) []stri
 				walkBlock(y.Body)
 				return false
 			case *ast.CallExpr:
+				if _, m := c17Method(f, y); c17AutoDestroys[m] && !consumed[y] {
+					// swamp methods that run `s.CeaseVigil(); s.Destroy()` themselves when the swamp becomes empty
+					consumed[y] = true
+					toks = append(toks, "autoDestroy")
+				}
 				if _, m := c17Method(f, y); c17IsCounter(m) && !consumed[y] {
 					// a counter call that is not a statement of its own
 					consumed[y] = true
@@ -386,7 +440,7 @@ func c17Handlers(fs *Facts) {
 		}
 		ok := true
 		for _, t := range s.toks {
-			if t != "sysPair" && t != "vigPair" && t != "recover" {
+			if t != "sysPair" && t != "vigPair" && t != "recover" && t != "autoDestroy" {
 				ok = false
 			}
 		}
